@@ -1432,6 +1432,10 @@ def static_shapes():
     A(P("tl-destructor-two-threads", SJ(2) + JJ(2) + [ld("tl0c")], [TW("T0"), TX("T0")], [ld("x"), TW("T0"), TX("T0")]))
     A(P("tl-destructor-unused-key", [spawn(2), join(2), ld("tl0c")], [ld("x"), TX("T0")]))
     A(P("tl-destructor-join-chain", [spawn(2), join(2), ld("tl0c")], [spawn(3), join(3)], [TW("T0"), TX("T0")]))
+    # a key nested in itself, also as the thread's FIRST access of the key: one instance, initialised once
+    TN = lambda a, b: I("tlnest", a, o2=b)
+    A(P("tl-nested-in-itself-first-access", SJ(2) + JJ(2), [TN("T0", "T0"), TW("T0")], [TW("T0"), TN("T0", "T0")]))
+    A(P("tl-nested-in-itself-both-keys", [TN("T1", "T1"), TN("T0", "T0"), TN("T0", "T1"), spawn(2), join(2)], [TN("T1", "T1")]))
     A(P("lz-and-tl", SJ(2) + JJ(2), [TW("T0"), LZ("Z0"), TW("T0")], [LZ("Z0"), TW("T0")]))
     A(P("lz-with-atomics", SJ(2) + JJ(2) + [ld("x")], [st("x", 1, "rel"), LZ("Z0")], [LZ("Z0"), ld("x", "acq")]))
     return out
